@@ -1083,8 +1083,8 @@ func c12NumberWithWrite(r *core.Run) {
 	pw := p.Func("tds", "Packet", "WriteTo")
 	n := 0
 	for _, fn := range p.ModuleFuncs() {
-		if fn.Blocks == nil || p.FuncInOverlay(fn) {
-			continue
+		if fn.Blocks == nil || p.FuncInOverlay(fn) || p.IsNewHelper(fn) {
+			continue // a new helper is judged where it is called
 		}
 		for _, b := range fn.Blocks {
 			for _, in := range b.Instrs {
